@@ -79,6 +79,15 @@ def nest(rng, prog):
             it.typeshare_args = rng.choice(['swift = "Equatable"', 'redacted', 'swift = "Hashable, Equatable"', 'kotlin = "JvmInline"'])
     if rng.random() < 0.3:
         prog.prelude = ''.join(rng.sample(DECOYS, rng.randint(1, 3)))
+    if rng.random() < 0.15:
+        # a second, different annotated item with the SAME Rust name in another module (v1::Settings / v2::Settings): both must be generated
+        cands = [it for it in prog.items if it.annotated and it.kind in ('struct', 'unit_enum', 'alg_enum', 'alias', 'newtype', 'unit_struct') and not it.generics]
+        if cands:
+            src = rng.choice(cands)
+            tw = progs.ProgGen(rng, profile()).item(src.ident, [])
+            tw.annotated = True
+            tw.nest = [rng.choice(['mod v2', 'mod legacy', 'fn scope2'])]
+            prog.items.append(tw)
 
 
 def members_of(it):
@@ -166,11 +175,12 @@ def model_front(m):
 
 def impl_members(pd):
     """ParsedData JSON -> {original name: members}: struct -> [field originals]; enum -> [(variant original, [fields]|None)]"""
-    out = {}
+    out = {}      # several items may share a name (v1::Settings, v2::Settings): one entry per item, in collection order
     for s in pd['structs']:
-        out[('struct', s['id']['original'])] = [f['id']['original'] for f in s['fields']]
+        out.setdefault(('struct', s['id']['original']), []).append([f['id']['original'] for f in s['fields']])
     for e in pd['enums']:
-        out[('enum', e['id']['original'])] = [(v['id']['original'], [f['id']['original'] for f in v['fields']] if v['k'] == 'struct' else None) for v in e['variants']]
+        out.setdefault(('enum', e['id']['original']), []).append(
+            [(v['id']['original'], [f['id']['original'] for f in v['fields']] if v['k'] == 'struct' else None) for v in e['variants']])
     return out
 
 
@@ -320,7 +330,12 @@ def run(chk):
         if pd is None:
             continue
         im = impl_members(pd)
-        tmap = {(('struct' if kd == 'struct' else 'enum'), n): mem for kd, n, mem in tr if mem is not None}
+        tmap = {}
+        for kd, n, mem in tr:
+            if mem is not None:
+                tmap.setdefault((('struct' if kd == 'struct' else 'enum'), n), []).append(mem)
+        seen_n = {}
+        dup_names = {key for key, v in im.items() if len(v) > 1} | {key for key, v in tmap.items() if len(v) > 1}
         for kind, ident, dom, members in mmem[k]:
             name = unS(ident)
             if members == 'none':
@@ -328,21 +343,36 @@ def run(chk):
             key = ('struct' if members[0] == 'fields' else 'enum', name)
             if key not in im:
                 continue            # the item failed to parse (counted as an error above) or became an alias
+            if key in dup_names:
+                # same-named items: every expected member list must occur among the collected items of that name (as a multiset, below)
+                continue
             if members[0] == 'fields':
                 exp = [unS(x) for x in members[1]]
             else:
                 exp = [(unS(v[0]), None if v[2] == 'none' else [unS(x) for x in v[2]]) for v in members[1]]
             chk.evaluations += 1
-            mp = dict(payload, part='members', item=name, impl_members=im[key], expected_members=exp, generator_members=tmap.get(key))
-            if key in tmap and tmap[key] != exp:
+            mp = dict(payload, part='members', item=name, impl_members=im[key][0], expected_members=exp, generator_members=(tmap.get(key) or [None])[0])
+            if key in tmap and tmap[key][0] != exp:
                 chk.violation(f'members-truth-{k}-{name}', mp, 'Spec expected member names differ from the generator\'s non-skipped members', no_input=True)
-            elif im[key] != exp:
+            elif im[key][0] != exp:
                 if dom == 'true':
                     chk.violation(f'members-{k}-{name}', mp, f'{key[0]} {name}: the parsed members are not exactly the non-skipped source members in source order')
                 else:
                     corr.append(mp)
             else:
                 chk.count('members_checked')
+        for key in sorted(dup_names):
+            exps = []
+            for kind, ident, dom, members in mmem[k]:
+                if members != 'none' and ('struct' if members[0] == 'fields' else 'enum', unS(ident)) == key:
+                    exps.append([unS(x) for x in members[1]] if members[0] == 'fields' else
+                                [(unS(v[0]), None if v[2] == 'none' else [unS(x) for x in v[2]]) for v in members[1]])
+            got = im.get(key, [])
+            chk.evaluations += 1
+            chk.count('same_named_items_checked')
+            if sorted(map(json.dumps, got)) != sorted(map(json.dumps, exps)) and len(got) == len(exps):
+                chk.violation(f'members-dup-{k}-{key[1]}', dict(payload, part='members', item=key[1], impl_members=got, expected_members=exps),
+                              f'{key[0]} {key[1]} occurs {len(exps)} times: the collected member lists are not those of the source items')
         if k % 97 == 0:
             chk.sample({'source_head': src[:400], 'front_obs': fobs[k][1], 'expected_items': m['expected']})
 
@@ -410,7 +440,14 @@ def run(chk):
         with_err = [k for k in usable if not targets[k] and fobs[k][0] == 'ok' and fobs[k][1][4] > 0]
         without = [k for k in usable if not targets[k] and fobs[k][0] == 'ok' and fobs[k][1][4] == 0 and sum(len(x) for x in fobs[k][1][:4]) > 0]
         ncli = 48 if quick else 600
-        pick = with_err[:ncli] + without[:ncli]
+
+        def has_twins(k):          # several collected items of one kind share a name (v1::Settings / v2::Settings)
+            names = [tuple(x) for part in fobs[k][1][:4] for x in part] if isinstance(fobs[k][1][0], list) else []
+            flat = [n if isinstance(n, str) else json.dumps(n) for n in names]
+            return len(flat) != len(set(flat))
+        twins = [k for k in without if has_twins(k)]
+        chk.count('cli_same_named_programs', len(twins[:ncli // 2]))
+        pick = with_err[:ncli] + twins[:ncli // 2] + [k for k in without if k not in set(twins[:ncli // 2])][:ncli]
         jobs = [(srcs[k], LANGS[i % 6][0], LANGS[i % 6][1], LANGS[i % 6][2]) for i, k in enumerate(pick)]
         with concurrent.futures.ThreadPoolExecutor(max_workers=vf.NPROC) as ex:
             outs = list(ex.map(run_binary, jobs))
